@@ -13,7 +13,7 @@ ASSUMPTIONS = [
     "logging disabled",
 ]
 BOUNDS = {
-    "quick": "structures: single, unary, pair, pair+isolated, chain-3, triangle (scopes in lexical, reversed and mixed order), pair+unary, chain-3 with a unary constraint on the root, pair with variable cost; domain size 2; min and max; all start orders and FIFO interleavings",
+    "quick": "structures: single, unary, pair, pair+isolated, chain-3, triangle (scopes in lexical, reversed and mixed order), pair+unary, chain-3 with a unary constraint on the root, pair with variable cost, pair / chain-3 with a single-value domain; domain size 2; min and max; all start orders and FIFO interleavings",
     "thorough": "quick + star-3, two disconnected pairs, ternary, ternary+binary, chain-3 with variable costs, pair with domain 3 (all schedules), chain-3 with one domain of size 3 (canonical schedule), str-valued domains",
 }
 OUTSIDE = "more than 4 variables, domains larger than 3, arity above 3, float-valued tables, infinite costs"
@@ -27,6 +27,10 @@ def jobs(tier):
     for s in quick:
         for mode in ("min", "max"):
             out.append({"name": "%s-%s" % (s, mode), "spec": spec(s, mode), "start": "interleaved"})
+    for mode in ("min", "max"):
+        # a variable with a single-value domain
+        out.append({"name": "pair-fixedvar-%s" % mode, "spec": spec("pair", mode, dom={"x": 1, "y": 2}), "start": "interleaved"})
+        out.append({"name": "chain3-fixedmid-%s" % mode, "spec": spec("chain3", mode, dom={"x": 2, "y": 1, "z": 2}), "start": "interleaved"})
     if tier == "thorough":
         for s in ["star3", "two_pairs", "ternary", "ternary_bin", "chain3_vcost"]:
             for mode in ("min", "max"):
